@@ -84,6 +84,10 @@ where
   }
 
   fn close_internal(&self) {
+    // Only the last sender handle disconnects the receivers.
+    if self.dispatcher.sender_count.fetch_sub(1, Ordering::AcqRel) != 1 {
+      return;
+    }
     let pinned_map = self.dispatcher.subscriptions.pin();
     for (_topic, list_arc) in pinned_map.iter() {
       let subscribers_snapshot = list_arc.reader.enter();
